@@ -784,6 +784,7 @@ func checkResetCompleteness(c *Ctx, r *Rec, rule string, n *types.Named) {
 	if n == nil {
 		return
 	}
+	checkResetOnEveryPath(c, r, rule, n)
 	role := c.roleOf(n.Obj().Pkg())
 	ms := c.methodsOf(n)
 	reset := ms["RemoveAll"]
